@@ -1260,7 +1260,7 @@ func TestCheck(t *testing.T) {
 	r := mon.Start(t, "C19")
 	defer r.Finish()
 	logrus.SetOutput(io.Discard)
-	r.Rule("an execution = one pipeline (DatagramParser x1-4 goroutines -> CloudHandler with a scripted instance cache -> TagHandler with 0-3 static tags -> BackendHandler with 0-4 capturing backends and max-concurrent-events 1-8, or -> HttpForwarderHandlerV2 posting to a capturing upstream; every 7th without cloud stage) fed by 2-7 concurrent senders (datagrams of 1-4 lines in batches of 1-3, mixed with unique metric lines and bad lines; or protobuf EventV2 posts to /v2/event, identity/deflate/lz4) of 10-50 grammar-derived event lines each with a unique id in the title; per sender address the cache scripts hit / negative hit / miss then success / miss then failure, each with and without caching of the answer, answered immediately, after random yields, or only after all senders have returned; backends copy on receipt, yield and spin per call, and fail 1 call in 16. Plus a deterministic script: dispatch cancelled while the only semaphore slot is held, then a dispatch with an already cancelled context, then a live one. Plus forwarder-mode executions whose upstream reads the body of the FIRST POST of every event and answers 503 / 500, accepting the forwarder's own retry (compression off / zlib / lz4; an undecodable retry is answered 400 as a real ingesting server would): exactly one accepted POST per event with the derivation's fields, retry body identical to the first attempt. Plus server scenarios: the real statsd.Server (standalone, internal statser, 1-3 capturing backends, scripted cache) run through RunWithCustomSocket on a scripted PacketConn; events from cached sources and from sources whose lookup is held (parked), or one event behind token-gated backends; the context is cancelled, then lookups are answered (found / not found) and backends released: every event accepted before the cancellation reaches every backend once, enriched, before RunWithCustomSocket returns, and it does return. Plus server-option scenarios: the real statsd.Server with a random option mix (ignore-host, default tags, filters and an ingestion HTTP server from YAML text, readers / parsers / workers / queue / max-concurrent-events, namespace, heartbeat, internal events) fed on both ingestion paths at once (scripted socket and its own /v2/event) by 4-12 senders: every event once at every backend with all fields incl. source = sender address / instance id and cloud tags. Plus forced interleavings: max-concurrent-events 1 or 2, 2-5 backends whose SendEvent blocks until the harness releases it; one DispatchEvent hands the event to the first backends and parks on the semaphore, then WaitForEvents is called on another goroutine (on the BackendHandler, the tag stage or the full chain head) and the backends are released one by one (oldest or newest first) or all held ones at once: at the stamp where WaitForEvents returned every backend must have been handed the event. Non-trivial: an event that was certainly parked for a lookup, or carries >= 3 distinct optional attributes; distinct by (attribute set, lookup outcome, parked, mode, sink count, transport); every interleaving, distinct by (semaphore size, backend count, head, release order, gated set).")
+	r.Rule("an execution = one pipeline (DatagramParser x1-4 goroutines -> CloudHandler with a scripted instance cache -> TagHandler with 0-3 static tags -> BackendHandler with 0-4 capturing backends and max-concurrent-events 1-8, or -> HttpForwarderHandlerV2 posting to a capturing upstream; every 7th without cloud stage) fed by 2-7 concurrent senders (datagrams of 1-4 lines in batches of 1-3, mixed with unique metric lines and bad lines; or protobuf EventV2 posts to /v2/event, identity/deflate/lz4) of 10-50 grammar-derived event lines each with a unique id in the title; per sender address the cache scripts hit / negative hit / miss then success / miss then failure, each with and without caching of the answer, answered immediately, after random yields, or only after all senders have returned; backends copy on receipt, yield and spin per call, and fail 1 call in 16. Plus a deterministic script: dispatch cancelled while the only semaphore slot is held, then a dispatch with an already cancelled context, then a live one. Plus forwarder-mode executions whose upstream reads the body of the FIRST POST of every event and answers 503 / 500, accepting the forwarder's own retry (compression off / zlib / lz4; an undecodable retry is answered 400 as a real ingesting server would): exactly one accepted POST per event with the derivation's fields, retry body identical to the first attempt. Plus server scenarios: the real statsd.Server (standalone, internal statser, 1-3 capturing backends, scripted cache) run through RunWithCustomSocket on a scripted PacketConn; events from cached sources and from sources whose lookup is held (parked), or one event behind token-gated backends; the context is cancelled, then lookups are answered (found / not found) and backends released: every event accepted before the cancellation reaches every backend once, enriched, before RunWithCustomSocket returns, and it does return. Plus server-option scenarios: the real statsd.Server with a random option mix (ignore-host, default tags, filters and an ingestion HTTP server from YAML text, readers / parsers / workers / queue / max-concurrent-events, namespace, heartbeat, internal events) fed on both ingestion paths at once (scripted socket and its own /v2/event) by 4-12 senders: every event once at every backend with all fields incl. source = sender address / instance id and cloud tags. Plus forwarder-mode server scenarios: the real statsd.Server in forwarder mode from configuration text, a slow upstream holding the metric posts (request slots taken), events from cached and held-lookup senders, cancellation, then lookups answered and upstream released: every accepted event once at the upstream before the server returns. Plus forced interleavings: max-concurrent-events 1 or 2, 2-5 backends whose SendEvent blocks until the harness releases it; one DispatchEvent hands the event to the first backends and parks on the semaphore, then WaitForEvents is called on another goroutine (on the BackendHandler, the tag stage or the full chain head) and the backends are released one by one (oldest or newest first) or all held ones at once: at the stamp where WaitForEvents returned every backend must have been handed the event. Non-trivial: an event that was certainly parked for a lookup, or carries >= 3 distinct optional attributes; distinct by (attribute set, lookup outcome, parked, mode, sink count, transport); every interleaving, distinct by (semaphore size, backend count, head, release order, gated set).")
 	r.Assume("the receipt time of an event without d: is judged on the [before send, after DoneFunc] bracket of harness clock readings, in seconds")
 	r.Assume("a hung WaitForEvents / parser is a violation only when the same workload stalls twice (watchdog 20 s)")
 	c := &checker{r: r, stalled: map[string]bool{}}
@@ -1279,6 +1279,8 @@ func TestCheck(t *testing.T) {
 				c.twice("interleaving", rp.Cfg, c.interleave)
 			} else if rp.Kind == "fwd-retry" {
 				c.twice("fwd-retry", rp.Cfg, c.executeRetry)
+			} else if rp.Kind == "server-fwd" {
+				c.twice("server-fwd", rp.Cfg, c.serverForwarder)
 			} else if rp.Kind == "server-opts" {
 				c.twice("server-opts", rp.Cfg, c.serverOptions)
 			} else if rp.Kind == "server" {
@@ -1322,6 +1324,12 @@ func TestCheck(t *testing.T) {
 	for k, n := 0, r.Pick(16, 320); k < n; k++ {
 		if r.Mine(k) {
 			c.twice("server-opts", k, c.serverOptions)
+		}
+	}
+	// the real statsd.Server in forwarder mode: shutdown with events parked and request slots taken by a slow upstream
+	for k, n := 0, r.Pick(16, 240); k < n; k++ {
+		if r.Mine(k) {
+			c.twice("server-fwd", k, c.serverForwarder)
 		}
 	}
 	// forced interleaving: WaitForEvents from another goroutine while a dispatch is parked on the semaphore
